@@ -832,8 +832,10 @@ class SourceFinder(object):
             # the true peak can sit half a pixel (in both axes) from the
             # brightest pixel: give the amplitude bound the head-room that
             # the beam sampling needs
-            headroom = math.exp(
-                0.25 / (min(pixbeam.a, pixbeam.b) * FWHM2CC) ** 2)
+            # (a degenerate pixel beam, eg at a celestial pole, gives inf)
+            with np.errstate(over='ignore', divide='ignore'):
+                headroom = np.exp(
+                    0.25 / np.float64(min(pixbeam.a, pixbeam.b) * FWHM2CC) ** 2)
             if amp > 0:
                 amp_max = max(
                     amp_max, amp * headroom + innerclip * rmsimg[xo, yo])
